@@ -475,6 +475,8 @@ Proof.
   - congruence.
   - unfold on_notify, get_keys. apply S_noout; [apply G_same; reflexivity | no_omsg].
   - apply S_noout; [apply G_refl | no_omsg].
+  - apply S_noout; [|no_omsg]. unfold read_fault. destruct k; try apply G_refl.
+    destruct (lookup iq (a_iqs a)); [apply G_same; reflexivity | apply G_refl].
 Qed.
 
 Definition is_kill (i : input) : bool := match i with IKill _ _ => true | _ => false end.
@@ -1093,3 +1095,68 @@ Proof.
   exists [IAppSend 7 1; IKill (KiKeys 0 [(7, (1, 50))]) 1], (IAppSend 7 2), 7, 2, EPk, 50, 0, 1.
   split; [repeat constructor; discriminate|]. vm_compute. split; [left; reflexivity | reflexivity].
 Qed.
+
+(* =====================================================================================================
+   Read fault during the trust decision (seeded defect C17-11: a lookup that fails is read as "no row"). *)
+(* the code as it is fails closed: no output, both tables (as the process sees them and as committed), the sent queue,
+   the parked messages and the retry counters are what they were; at most the answered key request is forgotten *)
+Theorem read_fault_fails_closed_thm : forall a k,
+  let a' := fst (step a (IReadFault k)) in
+  snd (step a (IReadFault k)) = [] /\
+  a_ids a' = a_ids a /\ a_sess a' = a_sess a /\ a_dids a' = a_dids a /\ a_dsess a' = a_dsess a /\
+  a_auto a' = a_auto a /\ a_sentq a' = a_sentq a /\ a_pend a' = a_pend a /\ a_retries a' = a_retries a /\
+  (forall iq x, lookup iq (a_iqs a') = Some x -> lookup iq (a_iqs a) = Some x).
+Proof.
+  intros a k. cbn [step step_nk fst snd]. unfold read_fault.
+  assert (Hrm : forall iq iq0 x, lookup iq0 (remove_key iq (a_iqs a)) = Some x -> lookup iq0 (a_iqs a) = Some x).
+  { intros iq iq0 x H. destruct (N.eq_dec iq iq0) as [-> | Hne].
+    - rewrite lookup_remove_same in H. discriminate.
+    - rewrite lookup_remove_other in H; auto. }
+  destruct k as [c m | iq res | c m e]; [do 9 (split; [reflexivity|]); auto | | do 9 (split; [reflexivity|]); auto].
+  destruct (lookup iq (a_iqs a)) eqn:E; do 9 (split; [reflexivity|]); [|auto].
+  intros iq0 x H. cbn [set_iqs a_iqs] in H. eapply Hrm; eauto.
+Qed.
+
+(* ... in particular, for every history with read faults (and restarts and kills) a remembered key stays and is
+   enforced: this is pin_survives_kill_thm, whose histories range over ALL inputs, IReadFault included *)
+Theorem read_fault_keeps_pin_thm : forall a ins c key,
+  a_auto a = false -> durable a -> no_wipe ins -> lookup c (a_ids a) = Some key ->
+  lookup c (a_ids (fst (run a ins))) = Some key.
+Proof. intros. apply pin_immutable_thm; auto. Qed.
+
+(* the variant that answers "trusted" when the lookup fails: a pinned contact's bundle with ANOTHER identity is
+   processed like a first contact's - session built for it, pin overwritten and committed - with auto-trust off;
+   the code as it is (read fault = abort; readable table = refusal) keeps the key either way *)
+Example read_fault_trusted_refuted :
+  exists a c k k' sid iq,
+    a_auto a = false /\ durable a /\ lookup c (a_ids a) = Some k /\ k' <> k /\ lookup iq (a_iqs a) = Some (KNotify c) /\
+    trusted (a_ids a) c k' = false /\ trusted_when_unreadable (a_ids a) c k' = true /\
+    (* what the variant then does: the body of processPreKeyBundle after a positive trust answer *)
+    lookup c (a_dids (build_session a c k' sid)) = Some k' /\
+    map s_ident (record_of (build_session a c k' sid) c) = [k'; k] /\
+    (* the code as it is, under the fault and without it *)
+    lookup c (a_ids (fst (step a (IReadFault (KiKeys iq [(c, (k', sid))]))))) = Some k /\
+    lookup c (a_ids (fst (step a (IKeys iq [(c, (k', sid))])))) = Some k.
+Proof.
+  exists (fst (run (init false) [INotify 7 1; IKeys 0 [(7, (1, 50))]; INotify 7 2])), 7, 1, 2, 51, 1.
+  vm_compute. repeat split; try reflexivity; discriminate.
+Qed.
+
+(* non-vacuity, computed: contact 7 pinned (key 1); 7 reinstalls (key 2); the bundle fetched to serve its retry
+   arrives while the table cannot be read: nothing happens; the next attempt, table readable, is refused with the
+   per-jid error; a first message with key 2 arriving under a read fault and then without is ignored both times *)
+Definition history_read_fault : list input :=
+  [ IAppSend 7 1; IKeys 0 [(7, (1, 50))]; IMsg 7 2 (mkE EMsg 50 0 0 true false 2);
+    IAppSend 7 3; IReceipt 7 3 true; IReadFault (KiKeys 1 [(7, (2, 51))]);
+    IAppSend 7 4; IReceipt 7 4 true; IKeys 2 [(7, (2, 52))];
+    IReadFault (KiMsg 7 5 (mkE EPk 60 0 2 true false 5)); IMsg 7 5 (mkE EPk 60 0 2 true false 5); IRestart ].
+
+Example read_fault_history_no_autotrust :
+  snd (run (init false) history_read_fault) =
+  [ [OGetKeys 0 7]; [OMsg 7 1 EPk 50 0 1]; [ODeliver 7 2 2; OReceipt 7 2];
+    [OMsg 7 3 EMsg 50 1 1]; [OGetKeys 1 7]; [];
+    [OMsg 7 4 EMsg 50 2 1]; [OGetKeys 2 7]; [OErr 7];
+    []; []; [] ]
+  /\ lookup 7 (a_ids (fst (run (init false) history_read_fault))) = Some 1
+  /\ map s_ident (record_of (fst (run (init false) history_read_fault)) 7) = [1].
+Proof. vm_compute. repeat split; reflexivity. Qed.
